@@ -49,35 +49,36 @@ class Entropy:
 
 # ------------------------------------------------------------------------------------------------
 def reload_vk(vk, fmt, cv, H):
+    """fmt = '<container>:<point encoding>', containers string / der / pem"""
     from ecdsa import VerifyingKey
-    if fmt in ("raw", "uncompressed", "compressed", "hybrid"):
-        return VerifyingKey.from_string(vk.to_string(fmt), curve=cv, hashfunc=H)
-    if fmt == "der":
-        return VerifyingKey.from_der(vk.to_der(), hashfunc=H)
-    if fmt == "der-compressed":
-        return VerifyingKey.from_der(vk.to_der("compressed"), hashfunc=H)
-    if fmt == "pem":
-        return VerifyingKey.from_pem(vk.to_pem(), hashfunc=H)
+    cont, enc = fmt.split(":")
+    if cont == "string":
+        return VerifyingKey.from_string(vk.to_string(enc), curve=cv, hashfunc=H)
+    if cont == "der":
+        return VerifyingKey.from_der(vk.to_der(enc), hashfunc=H)
+    if cont == "pem":
+        return VerifyingKey.from_pem(vk.to_pem(enc), hashfunc=H)
     raise ValueError(fmt)
 
 
 def reload_sk(sk, fmt, cv, H):
+    """fmt = 'string' or '<der|pem>:<point encoding>:<ssleay|pkcs8>'"""
     from ecdsa import SigningKey
     if fmt == "string":
         return SigningKey.from_string(sk.to_string(), curve=cv, hashfunc=H)
-    if fmt == "der":
-        return SigningKey.from_der(sk.to_der(), hashfunc=H)
-    if fmt == "pem":
-        return SigningKey.from_pem(sk.to_pem(), hashfunc=H)
-    if fmt == "der-pkcs8":
-        return SigningKey.from_der(sk.to_der(format="pkcs8"), hashfunc=H)
-    if fmt == "pem-pkcs8":
-        return SigningKey.from_pem(sk.to_pem(format="pkcs8"), hashfunc=H)
+    cont, enc, f = fmt.split(":")
+    if cont == "der":
+        return SigningKey.from_der(sk.to_der(enc, f), hashfunc=H)
+    if cont == "pem":
+        return SigningKey.from_pem(sk.to_pem(enc, f), hashfunc=H)
     raise ValueError(fmt)
 
 
-VK_FORMATS = ("raw", "uncompressed", "compressed", "hybrid", "der", "der-compressed", "pem")
-SK_FORMATS = ("string", "der", "pem", "der-pkcs8", "pem-pkcs8")
+# EVERY supported (container x point encoding [x private-key format]); DER/PEM need a curve OID: named curves only
+VK_STRING_FORMATS = tuple("string:" + e for e in ("raw", "uncompressed", "compressed", "hybrid"))
+VK_FORMATS = VK_STRING_FORMATS + tuple("%s:%s" % (c, e) for c in ("der", "pem") for e in ("uncompressed", "compressed", "hybrid"))
+SK_FORMATS = ("string",) + tuple("%s:%s:%s" % (c, e, f) for c in ("der", "pem") for e in ("uncompressed", "compressed", "hybrid")
+                                 for f in ("ssleay", "pkcs8"))
 
 
 def do_sign(case, sk=None):
@@ -91,16 +92,30 @@ def do_sign(case, sk=None):
     k = case.get("k")
     ent = Entropy(case["entropy_seed"]) if case.get("entropy_seed") is not None else None
     ee = bytes.fromhex(case.get("extra_entropy", ""))
+    pos = case.get("call") == "positional"
+    at = case.get("allow_truncate")
     if entry == "sign":
-        return sk.sign(bytes.fromhex(case["data"]), entropy=ent, hashfunc=H, sigencode=enc, k=k, allow_truncate=case["allow_truncate"])
+        # sign(self, data, entropy=None, hashfunc=None, sigencode=sigencode_string, k=None, allow_truncate=True)
+        if pos:
+            return sk.sign(bytes.fromhex(case["data"]), ent, H, enc, k, at)
+        return sk.sign(bytes.fromhex(case["data"]), entropy=ent, hashfunc=H, sigencode=enc, k=k, allow_truncate=at)
     if entry == "sign_digest":
-        return sk.sign_digest(E.digest_obj(case), entropy=ent, sigencode=enc, k=k, allow_truncate=case["allow_truncate"])
+        # sign_digest(self, digest, entropy=None, sigencode=sigencode_string, k=None, allow_truncate=False)
+        if pos:
+            return sk.sign_digest(E.digest_obj(case), ent, enc, k, at)
+        return sk.sign_digest(E.digest_obj(case), entropy=ent, sigencode=enc, k=k, allow_truncate=at)
     if entry == "sign_deterministic":
+        # sign_deterministic(self, data, hashfunc=None, sigencode=sigencode_string, extra_entropy=b"")
+        if pos:
+            return sk.sign_deterministic(bytes.fromhex(case["data"]), H, enc, ee)
         return sk.sign_deterministic(bytes.fromhex(case["data"]), hashfunc=H, sigencode=enc, extra_entropy=ee)
     if entry == "sign_digest_deterministic":
-        return sk.sign_digest_deterministic(E.digest_obj(case), hashfunc=H, sigencode=enc, extra_entropy=ee,
-                                            allow_truncate=case["allow_truncate"])
-    r, s = sk.sign_number(case["number"], entropy=ent, k=k)
+        # sign_digest_deterministic(self, digest, hashfunc=None, sigencode=sigencode_string, extra_entropy=b"", allow_truncate=False)
+        if pos:
+            return sk.sign_digest_deterministic(E.digest_obj(case), H, enc, ee, at)
+        return sk.sign_digest_deterministic(E.digest_obj(case), hashfunc=H, sigencode=enc, extra_entropy=ee, allow_truncate=at)
+    # sign_number(self, number, entropy=None, k=None)
+    r, s = sk.sign_number(case["number"], ent, k) if pos else sk.sign_number(case["number"], entropy=ent, k=k)
     return enc(r, s, n)
 
 
@@ -113,12 +128,20 @@ def do_verify(case, sig, vk=None):
     vk = vk or E.get_key(case["curve"], case["d"]).verifying_key
     dec = E.decoder(case["enc"])
     entry = case["entry"]
+    pos = case.get("call") == "positional"
+    sigo = E.wrap_sig(sig, case.get("sigcontainer"))
     if entry in ("sign", "sign_deterministic"):
         allow = True if entry == "sign_deterministic" else case["allow_truncate"]
-        return vk.verify(sig, bytes.fromhex(case["data"]), hashfunc=H, sigdecode=dec, allow_truncate=allow)
+        # verify(self, signature, data, hashfunc=None, sigdecode=sigdecode_string, allow_truncate=True)
+        if pos:
+            return vk.verify(sigo, bytes.fromhex(case["data"]), H, dec, allow)
+        return vk.verify(sigo, bytes.fromhex(case["data"]), hashfunc=H, sigdecode=dec, allow_truncate=allow)
     if entry in ("sign_digest", "sign_digest_deterministic"):
-        return vk.verify_digest(sig, E.digest_obj(case), sigdecode=dec, allow_truncate=case["allow_truncate"])
-    r, s = dec(sig, n)
+        # verify_digest(self, signature, digest, sigdecode=sigdecode_string, allow_truncate=False)
+        if pos:
+            return vk.verify_digest(sigo, E.digest_obj(case), dec, case["allow_truncate"])
+        return vk.verify_digest(sigo, E.digest_obj(case), sigdecode=dec, allow_truncate=case["allow_truncate"])
+    r, s = dec(sigo, n)
     return vk.pubkey.verifies(case["number"], Signature(r, s))
 
 
@@ -146,6 +169,12 @@ def run_case(case):
         except Exception as e:  # noqa
             return {"observed": "re-loading the key (%s %s) raised %s" % (rl[0], rl[1], type(e).__name__), "expected": "the same key"}
     got = E.call(lambda: do_sign(case, sk))
+    if rl and rl[0] == "sk" and got[0] == "ok" and (case.get("k") is not None or case["entry"].endswith("deterministic")):
+        # a re-loaded signing key makes the SAME signature (same nonce / deterministic nonce)
+        ref = E.call(lambda: do_sign(case, E.get_key(case["curve"], case["d"])))
+        if ref[0] != "ok" or E.sig_json(ref[1]) != E.sig_json(got[1]):
+            return {"observed": {"reloaded key signs": E.sig_json(got[1]), "original key": E.sig_json(ref[1]) if ref[0] == "ok" else ref[2]},
+                    "expected": "identical signatures"}
     if got[0] == "err":
         dg = case_digest(case)
         allow = True if case["entry"] == "sign_deterministic" else case.get("allow_truncate", True)
@@ -297,6 +326,47 @@ def curve_cases(rng, spec, reps, level):
                     c2 = dict(case)
                     c2["reload"] = ["vk", rng.choice(VK_FORMATS)] if rng.random() < 0.6 else ["sk", rng.choice(SK_FORMATS)]
                     out.append(("reloaded %s %s" % tuple(c2["reload"]), c2, False))
+                # the same case called POSITIONALLY (documented parameter order), and with the signature handed over in a
+                # non-bytes container (search only)
+                if var == 0:
+                    out.append(("positional call " + " ".join(tagbits[:2]), dict(case, call="positional"), False))
+                    if rng.random() < 0.5:
+                        kind = rng.choice(E.CONTAINERS)
+                        out.append(("signature as " + kind, dict(case, sigcontainer=kind), False))
+    return out
+
+
+def reload_sweep(rng, quick):
+    """search only: sign, serialise the key in EVERY supported (container x point encoding [x private format]), re-load, verify /
+    sign again.  Named curves: all 10 verifying-key and 13 signing-key formats; toy curves (no OID): the string formats."""
+    out = []
+    for cv in E.named_curves():
+        spec = E.curve_spec(cv)
+        n = int(cv.order)
+        for rep in range(1 if quick else 4):
+            d, k = rng.randrange(1, n), rng.randrange(1, n)
+            dg = bytes(rng.randrange(256) for _ in range(cv.baselen))
+            for entry in ("sign_digest", "sign_digest_deterministic") if rep == 0 else ("sign_digest",):
+                base = {"curve": spec, "d": d, "entry": entry, "enc": rng.choice(E.ENCODERS), "hash": "sha256", "digest": dg.hex(),
+                        "allow_truncate": True}
+                if entry == "sign_digest":
+                    base["k"] = k
+                else:
+                    base["extra_entropy"] = ""
+                for fmt in VK_FORMATS:
+                    out.append(("reload sweep vk " + fmt, dict(base, reload=["vk", fmt]), False))
+                for fmt in SK_FORMATS:
+                    out.append(("reload sweep sk " + fmt, dict(base, reload=["sk", fmt]), False))
+    for t in E.get_fixed_toys()[:2]:
+        for mode in ("j", "a"):
+            spec = E.curve_spec(t, mode)
+            d, k = rng.randrange(1, t.n), rng.randrange(1, t.n)
+            base = {"curve": spec, "d": d, "entry": "sign_digest", "enc": "string", "hash": "sha1", "digest": "a5", "allow_truncate": True, "k": k}
+            # (on a field below 256 the compressed form has the length of the raw form, 2 bytes, and is read as raw: an ambiguity of
+            # one-byte fields only - C09.table_orderlen_ne_one excludes it for the named curves - so it is not offered here)
+            for fmt in [f for f in VK_STRING_FORMATS if f != "string:compressed"]:
+                out.append(("reload sweep toy vk " + fmt, dict(base, reload=["vk", fmt]), False))
+            out.append(("reload sweep toy sk string", dict(base, reload=["sk", "string"]), False))
     return out
 
 
@@ -322,6 +392,7 @@ def all_cases(ctx):
     for t in E.pick_toys(rng, 3 if q else 20):
         extra += curve_cases(rng, E.curve_spec(t, rng.choice("ja")), 3 if q else 10, "toy")
     out += [(tag, case, False) for tag, case, _ in extra]
+    out += reload_sweep(rng, q)
     # the digest entry points on non-bytes bytes-like digests (bytearray, memoryview, multi-byte-item views and arrays)
     out += E.container_variants(rng, [x for x in out if x[1].get("entry") in ("sign_digest", "sign_digest_deterministic")], 0.3)
     ctx._c01_cases = out
@@ -338,7 +409,7 @@ def correspond(ctx):
             cv, cp, t = E.resolve_curve(case["curve"])
             cost = 3e-5 if t is not None else E.linecost(cv)
             for line, th, kind in case_lines(case):
-                c[kind].add(line, th, tag, cost, key=case.get("container"))
+                c[kind].add(line, th, tag, cost, key=(case.get("container"), case.get("sigcontainer"), case.get("call")))
     for k in c:
         c[k].run()
         c[k].mirror_ref().run()
